@@ -51,10 +51,10 @@ Qed.
 (* weights *)
 Definition pw (t : qthread) : nat := match t with QProd QPLock _ | QProd QPWrite _ => 1 | _ => 0 end.
 Definition wr (t : qthread) : nat := match t with QProd QPUnlock _ | QProd QPPost _ => 1 | _ => 0 end.
-Definition pcs (t : qthread) : nat := match t with QProd QPWrite _ | QProd QPUnlock _ => 1 | _ => 0 end.
+Definition pcs (t : qthread) : nat := match t with QProd QPWrite _ => 1 | _ => 0 end.
 Definition cw (t : qthread) : nat := match t with QCons QCLock _ _ | QCons QCRead _ _ => 1 | _ => 0 end.
 Definition rd (t : qthread) : nat := match t with QCons QCUnlock _ _ | QCons QCPost _ _ => 1 | _ => 0 end.
-Definition ccs (t : qthread) : nat := match t with QCons QCRead _ _ | QCons QCUnlock _ _ => 1 | _ => 0 end.
+Definition ccs (t : qthread) : nat := match t with QCons QCRead _ _ => 1 | _ => 0 end.
 
 Definition thread_wf (t : qthread) : Prop :=
   match t with
@@ -159,7 +159,7 @@ Section PcqProofs.
             pose proof (wsum_upd cw _ _ _ (QProd QPUnlock (v :: rest)) Hnth); pose proof (wsum_upd rd _ _ _ (QProd QPUnlock (v :: rest)) Hnth). simpl in *. lia.
         * pose proof (wsum_upd wr _ _ _ (QProd QPUnlock (v :: rest)) Hnth); pose proof (wsum_upd cw _ _ _ (QProd QPUnlock (v :: rest)) Hnth). simpl in *. lia.
         * rewrite Jpat, q_next_mod. f_equal. lia.
-        * pose proof (wsum_upd pcs _ _ _ (QProd QPUnlock (v :: rest)) Hnth). simpl in *. lia.
+        * pose proof (wsum_upd pcs _ _ _ (QProd QPUnlock (v :: rest)) Hnth). simpl in *. destruct (q_pmx s); lia.
         * pose proof (wsum_upd ccs _ _ _ (QProd QPUnlock (v :: rest)) Hnth). simpl in *. lia.
         * intros j Hj. rewrite Jpat.
           destruct (Nat.eq_dec j (length (q_wlog s))) as [->|Hne].
@@ -174,7 +174,7 @@ Section PcqProofs.
         * pose proof (wsum_upd pw _ _ _ (QProd QPPost (v :: rest)) Hnth); pose proof (wsum_upd wr _ _ _ (QProd QPPost (v :: rest)) Hnth);
             pose proof (wsum_upd cw _ _ _ (QProd QPPost (v :: rest)) Hnth); pose proof (wsum_upd rd _ _ _ (QProd QPPost (v :: rest)) Hnth). simpl in *. lia.
         * pose proof (wsum_upd wr _ _ _ (QProd QPPost (v :: rest)) Hnth); pose proof (wsum_upd cw _ _ _ (QProd QPPost (v :: rest)) Hnth). simpl in *. lia.
-        * pose proof (wsum_upd pcs _ _ _ (QProd QPPost (v :: rest)) Hnth). simpl in *. destruct (q_pmx s); lia.
+        * pose proof (wsum_upd pcs _ _ _ (QProd QPPost (v :: rest)) Hnth). simpl in *. lia.
         * pose proof (wsum_upd ccs _ _ _ (QProd QPPost (v :: rest)) Hnth). simpl in *. lia.
         * apply Hwf'. exact I.
       + (* post used *)
@@ -217,7 +217,7 @@ Section PcqProofs.
         * pose proof (wsum_upd wr _ _ _ (QCons QCUnlock (S w) (q_slots s (q_cat s) :: got)) Hnth); pose proof (wsum_upd cw _ _ _ (QCons QCUnlock (S w) (q_slots s (q_cat s) :: got)) Hnth). simpl in *. lia.
         * rewrite Jcat, q_next_mod. f_equal. lia.
         * pose proof (wsum_upd pcs _ _ _ (QCons QCUnlock (S w) (q_slots s (q_cat s) :: got)) Hnth). simpl in *. lia.
-        * pose proof (wsum_upd ccs _ _ _ (QCons QCUnlock (S w) (q_slots s (q_cat s) :: got)) Hnth). simpl in *. lia.
+        * pose proof (wsum_upd ccs _ _ _ (QCons QCUnlock (S w) (q_slots s (q_cat s) :: got)) Hnth). simpl in *. destruct (q_cmx s); lia.
         * intros j Hj. apply Jslots. lia.
         * rewrite Hval. replace (length (q_rlog s) + 1) with (S (length (q_rlog s))) by lia.
           rewrite firstn_S_nth by lia. rewrite <- Jfifo. reflexivity.
@@ -229,7 +229,7 @@ Section PcqProofs.
             pose proof (wsum_upd cw _ _ _ (QCons QCPost (S w) got) Hnth); pose proof (wsum_upd rd _ _ _ (QCons QCPost (S w) got) Hnth). simpl in *. lia.
         * pose proof (wsum_upd wr _ _ _ (QCons QCPost (S w) got) Hnth); pose proof (wsum_upd cw _ _ _ (QCons QCPost (S w) got) Hnth). simpl in *. lia.
         * pose proof (wsum_upd pcs _ _ _ (QCons QCPost (S w) got) Hnth). simpl in *. lia.
-        * pose proof (wsum_upd ccs _ _ _ (QCons QCPost (S w) got) Hnth). simpl in *. destruct (q_cmx s); lia.
+        * pose proof (wsum_upd ccs _ _ _ (QCons QCPost (S w) got) Hnth). simpl in *. lia.
         * apply Hwf'. exact I.
       + (* post empty *)
         inversion H; subst s'; clear H.
